@@ -184,7 +184,12 @@ def history_stream(run, tier, recs, mods):
     # widening clause along an ascending history: the twin member grows, the partner is fixed
     if info["order"] == "ascending" and info["field"] in ("max_val_po2", "bits"):
       p_ = prev.get(hi)
-      if p_ is not None and (ro["int_bits"] < p_[0]["int_bits"] or frac_of(ro) < frac_of(p_[0])):
+      # (int_bits, fraction bits) of two records are comparable only when both are the same kind of record: a
+      # power-of-two record keeps its EXPONENT width in bits / int_bits.  Since fix 0ca6039 a Maximum of two po2
+      # inputs with different caps is a fixed-point envelope while the same-cap pair that ends the ascending group
+      # is the po2 type itself; that pair of results is judged by the brute-force value clause below, not here.
+      if p_ is not None and bool(ro["is_po2"]) == bool(p_[0]["is_po2"]) and (
+          ro["int_bits"] < p_[0]["int_bits"] or frac_of(ro) < frac_of(p_[0])):
         run.violate("widening_never_narrows", {"site": fac, "field": info["field"], "stream": "history"},
                     dict(info, out=ro, previous_out=p_[0], previous_operands=p_[1]), mirrored=not d)
       prev[hi] = (ro, info["operands"])
